@@ -70,10 +70,13 @@ type AtomRow struct {
 	U bool   `json:"u"` // Go regexp.MatchString(pattern, v): unanchored, the language's meaning
 	A bool   `json:"a"` // anchored ^(?:pattern)$ unless pattern is a pure literal (then Contains)
 	I bool   `json:"i"` // what the index's own translation of the pattern matches (measured: single-atom search on probe series)
+	P bool   `json:"p"` // what the pruning path (doPrune) matches: Go regexp compiled from the filter's value text after Init
 }
 type AtomTab struct {
 	Pat     string    `json:"pat"`
 	AST     *ReAST    `json:"ast"` // the pattern's syntax tree (Go parser, Perl flags): input of the Coq model of the translation
+	VText   string    `json:"vtext"` // tagFilter.value after Init: cache-key text and the expression doPrune compiles
+	Prune   *ReAST    `json:"prune"` // syntax tree of VText
 	Literal bool      `json:"literal"` // pattern is a pure literal
 	Anchors bool      `json:"anchors"` // pattern contains an explicit position assertion (^ $ \A \z \b \B)
 	Rows    []AtomRow `json:"rows"`
@@ -641,9 +644,10 @@ func (rn *runner) finishAtoms() {
 		for _, id := range g1 {
 			in[id] = true
 		}
-		t := AtomTab{Pat: p, AST: parseAST(p), Literal: isPureLiteral(p), Anchors: hasAnchors(p)}
+		vt := filterValueText(p)
+		t := AtomTab{Pat: p, AST: parseAST(p), VText: vt, Prune: parseAST(vt), Literal: isPureLiteral(p), Anchors: hasAnchors(p)}
 		for _, v := range vl {
-			t.Rows = append(t.Rows, AtomRow{V: v, U: matchU(p, v), A: matchA(p, v), I: in[idOf[v]]})
+			t.Rows = append(t.Rows, AtomRow{V: v, U: matchU(p, v), A: matchA(p, v), I: in[idOf[v]], P: matchU(vt, v)})
 		}
 		rn.c.Atoms = append(rn.c.Atoms, t)
 	}
